@@ -169,12 +169,13 @@ Definition replaced (M : list slot) (mp : path) (fs0 : fsys) : list slot :=
   let base := S (max_tid M) in
   map (fun p => (fst (snd p), new_val fs0 mp lay base (fst p) (snd p))) (index_from 0 M).
 
-Definition ser (M : list slot) : list pentry :=
-  flat_map (fun s => match s_val s with
-                     | None => []                                     (* serde drops an initializer without const_value *)
-                     | Some (InMem _ d) => [(s_name s, s_main s, PInline d)]
-                     | Some (Ext _ src off len) => [(s_name s, s_main s, PExt (snd src) off len)]
-                     end) M.
+Definition slot_entries (s : slot) : list pentry :=
+  match s_val s with
+  | None => []                                     (* serde drops an initializer without const_value *)
+  | Some (InMem _ d) => [(s_name s, s_main s, PInline d)]
+  | Some (Ext _ src off len) => [(s_name s, s_main s, PExt (snd src) off len)]
+  end.
+Definition ser (M : list slot) : list pentry := flat_map slot_entries M.
 Definition ops_model (M1 : list slot) (mp : path) : list op := [OpenW mp; WriteM mp (ser M1); Close mp].
 
 (* `finally`: initializer.const_value = tensor for zip(initialized_values, tensors) *)
@@ -239,8 +240,9 @@ Definition load (fs : fsys) (mp : path) : option (list (string * bool * bytes)) 
   | _ => None
   end.
 (* what loading must give back: every initialised slot with the bytes it had before the save *)
-Definition expected (fs0 : fsys) (M : list slot) : list (string * bool * bytes) :=
-  flat_map (fun s => match s_val s with Some t => [(fst s, data_of fs0 t)] | None => [] end) M.
+Definition expected_of (fs0 : fsys) (s : slot) : list (string * bool * bytes) :=
+  match s_val s with Some t => [(fst s, data_of fs0 t)] | None => [] end.
+Definition expected (fs0 : fsys) (M : list slot) : list (string * bool * bytes) := flat_map (expected_of fs0) M.
 
 (* tensors that the documented exception of ir.save concerns: over the threshold and backed by the destination *)
 Definition overwritten_sources (M : list slot) (mp : path) (fs0 : fsys) : list nat :=
